@@ -34,6 +34,7 @@ PROPS = {
         assumptions=COMMON_ASSUME + ["a context cancelled before PublishContext is called is what 'already cancelled' means; cancellation during a publish is not generated here"],
         tests=[
             dict(name="TestSeq", quick=5000, thorough=480000, shards_thorough=8),
+            dict(name="TestKnownProbes", quick=1, thorough=1, shards_thorough=1, rapid=False),
             dict(name="TestConc", quick=300, thorough=20000, shards_thorough=8, race=True, shrinktime="2s"),
         ],
     ),
